@@ -97,4 +97,87 @@ example : (unpack fresh wVideo).2.toOption = some () ∧ (unpack fresh wVideo).1
     ((unpack fresh wVideo).1.mpegts.blocks.map fun p => p.adaption_field.map fun a => a.pcr) = [none, some [1, 2, 3, 4, 5, 6]] ∧
     wVideo.length = 380 := by decide +kernel
 
+/-! ### packet-level outcome list (review B4), on the transport-stream model: `VideoFormat2.unpack` returns, or raises
+    `struct.error` (fewer than 4 bytes) or a bare `Exception` (intra-packet-header bit set, or `MPEGTS.unpack` refuses
+    `buffer[4:]`); each kind characterised -/
+
+/-- the channel-specific word (little-endian 32 bits) of a buffer holding it -/
+def videoCsw (buf : Bytes) : Nat := decInt false (buf.take 4)
+
+/-- exactly which exception, and when -/
+theorem Video_unpack_error_iff (t : State) (buf : Bytes) (e : Err) :
+    (unpack t buf).2 = .error e ↔
+      (buf.length < 4 ∧ e = .struct) ∨
+      (4 ≤ buf.length ∧ e = .generic ∧ ((videoCsw buf / 2 ^ 19) % 2 = 1 ∨
+        (TS.unpack TS.fresh (buf.drop 4)).2 = .error .generic)) := by
+  simp only [unpack]
+  by_cases h4 : 4 ≤ buf.length
+  · have hc : structUnpackFrom VID_unpack_fmt0 buf 0 = .ok [videoCsw buf] := by
+      simp only [structUnpackFrom, VID_unpack_fmt0, Fmt.size, codesSize, Code.size, unpackCodes, videoCsw, List.drop_zero]
+      have : 0 + (4 + 0) ≤ buf.length := by omega
+      simp only [this, if_true]
+    simp only [hc, IPH_OFFSET]
+    by_cases hiph : (videoCsw buf / 2 ^ 19) % 2 = 1
+    · simp only [hiph, if_true, Except.error.injEq]
+      constructor
+      · rintro rfl; exact Or.inr ⟨h4, rfl, Or.inl trivial⟩
+      · rintro (⟨h, _⟩ | ⟨_, rfl, _⟩)
+        · omega
+        · rfl
+    · simp only [hiph, if_false]
+      have ho := MPEGTS_unpack_outcomes TS.fresh (buf.drop 4)
+      cases hr : TS.unpack TS.fresh (buf.drop 4) with
+      | mk ts r =>
+        rw [hr] at ho
+        cases r with
+        | ok b =>
+          simp only [reduceCtorEq, false_iff]
+          rintro (⟨h, _⟩ | ⟨_, _, h | h⟩)
+          · omega
+          · exact h
+          · cases h
+        | error e' =>
+          have he' : e' = .generic := by
+            rcases ho with h | h
+            · cases h
+            · simpa using h
+          subst he'
+          simp only [Except.error.injEq]
+          constructor
+          · rintro rfl; exact Or.inr ⟨h4, rfl, Or.inr trivial⟩
+          · rintro (⟨h, _⟩ | ⟨_, rfl, _⟩)
+            · omega
+            · rfl
+  · have hc : structUnpackFrom VID_unpack_fmt0 buf 0 = .error .struct := by
+      simp only [structUnpackFrom, VID_unpack_fmt0, Fmt.size, codesSize, Code.size]
+      have : ¬ 0 + (4 + 0) ≤ buf.length := by omega
+      simp only [this, if_false]
+    simp only [hc, Except.error.injEq]
+    constructor
+    · rintro rfl; exact Or.inl ⟨by omega, rfl⟩
+    · rintro (⟨_, rfl⟩ | ⟨h, _⟩)
+      · rfl
+      · omega
+
+/-- the outcome list — nothing else, in particular never `fuel` -/
+theorem Video_unpack_outcomes (t : State) (buf : Bytes) :
+    (unpack t buf).2 = .ok () ∨ (unpack t buf).2 = .error .struct ∨ (unpack t buf).2 = .error .generic := by
+  cases hr : (unpack t buf).2 with
+  | ok u => exact Or.inl rfl
+  | error e =>
+    rcases (Video_unpack_error_iff t buf e).1 hr with ⟨_, rfl⟩ | ⟨_, rfl, _⟩
+    · exact Or.inr (Or.inl rfl)
+    · exact Or.inr (Or.inr rfl)
+
+/-- every outcome is reachable: `wVideo` accepted; 3 bytes → `struct.error`; intra-packet-header bit (bit 19 of the
+    channel-specific word) set → `Exception`; the SECOND packet's sync byte wrong → `Exception`; a trailing chunk of
+    three bytes (shorter than the 4-byte transport header) → `Exception` -/
+example : (unpack fresh (wVideo.take 3)).2 = .error .struct := by rfl
+set_option maxRecDepth 20000 in
+example : (unpack fresh (wVideo.set 2 8)).2 = .error .generic := by rfl
+set_option maxRecDepth 20000 in
+example : (unpack fresh (wVideo.set 192 0x46)).2 = .error .generic := by rfl
+set_option maxRecDepth 20000 in
+example : (unpack fresh (wVideo ++ [0x47, 0, 0])).2 = .error .generic := by rfl
+
 end Acra.Props.C08
